@@ -2,6 +2,7 @@ package main
 
 import (
 	"fmt"
+	"go/token"
 	"go/types"
 	"sort"
 	"strings"
@@ -125,6 +126,9 @@ func (e *Engine) Verify(key string) (res *FuncResult) {
 		}
 	}
 	vc.entryLen = len(vc.cmds)
+	if fc != nil && fc.HasOwnW {
+		e.ownWritesScan(vc, fn, fc)
+	}
 	rets := fr.run(reach, st)
 	for ri, r := range rets {
 		vc.curBlock = r.block
@@ -394,4 +398,71 @@ func replaceToken(s, name, with string) string {
 		i = j
 	}
 	return sb.String()
+}
+
+// ownWritesScan: `own_writes` is an effect clause about the instructions of the function itself (its callees are
+// covered by their own contracts): every store, map update, append and copy in the body must fall into one of the
+// listed families; stores into the function's local variables are always allowed. One obligation per offending
+// instruction, decided syntactically on the SSA.
+func (e *Engine) ownWritesScan(vc *VC, fn *ssa.Function, fc *FuncContract) {
+	allowed := newModSet()
+	for _, d := range fc.OwnWrites {
+		e.designator(d, fc.Pkg, allowed)
+	}
+	ok := func(p string) bool {
+		for a := range allowed.Vars {
+			if strings.HasPrefix(p, a) {
+				return true
+			}
+		}
+		return false
+	}
+	n := 0
+	report := func(pos token.Pos, what string) {
+		o := vc.oblige("effect.ownWrites", "", TTrue, TFalse, pos, "own_writes "+strings.Join(fc.OwnWrites, ", ")+" -- offending: "+what, fc.Props, "")
+		o.Status, o.Solver, o.Model = "sat", "syntactic scan of the SSA", "the function body writes "+what
+		n++
+	}
+	for _, b := range fn.Blocks {
+		for _, in := range b.Instrs {
+			switch in := in.(type) {
+			case *ssa.Store:
+				if a := allocRoot(in.Addr); a != nil && !a.Heap {
+					continue
+				}
+				if ia, isIdx := in.Addr.(*ssa.IndexAddr); isIdx {
+					if _, isAlloc := ia.X.(*ssa.Alloc); isAlloc {
+						continue // argument array of a variadic call
+					}
+				}
+				for _, p := range e.addrPrefix(in.Addr, nil) {
+					if !ok(p) {
+						report(in.Pos(), p)
+					}
+				}
+			case *ssa.MapUpdate:
+				mt := in.Map.Type().Underlying().(*types.Map)
+				if p := "MD." + typeKey(mt); !ok(p) {
+					report(in.Pos(), p)
+				}
+			case *ssa.Call:
+				if bi, isB := in.Call.Value.(*ssa.Builtin); isB && (bi.Name() == "append" || bi.Name() == "copy" || bi.Name() == "delete") {
+					switch t := in.Call.Args[0].Type().Underlying().(type) {
+					case *types.Slice:
+						if p := "M." + typeKey(t.Elem()); !ok(p) {
+							report(in.Pos(), p)
+						}
+					case *types.Map:
+						if p := "MD." + typeKey(t); !ok(p) {
+							report(in.Pos(), p)
+						}
+					}
+				}
+			}
+		}
+	}
+	if n == 0 {
+		o := vc.oblige("effect.ownWrites", "", TTrue, TFalse, fn.Pos(), "own_writes "+strings.Join(fc.OwnWrites, ", "), fc.Props, "")
+		o.Status, o.Solver = "unsat", "syntactic scan of the SSA"
+	}
 }
